@@ -22,7 +22,50 @@ func c06grid() []uint64 {
 var c06kept []primitives.MemberWeight
 var c06keptOf []uint64
 
+// c06schemes: how member ids are spelled. The arithmetic must not depend on it: ids are opaque byte strings of
+// any length, compared as a whole (long ids with a common prefix, ids that extend one another by zero bytes,
+// ids differing only in their first / last byte or in letter case, binary ids).
+var c06schemes = []string{"byte", "longprefix", "zeroext", "longsuffix", "case", "binary"}
+
+func c06id(scheme string, i int) []byte {
+	switch scheme {
+	case "longprefix": // 40 common bytes, then the index
+		return append([]byte("orbs-validator-node-eu-west-1-deployment-"), byte('0'+i))
+	case "zeroext": // {1}, {1,0}, {1,0,0}, ...
+		return append([]byte{1}, make([]byte, i)...)
+	case "longsuffix": // the index, then 40 common bytes
+		return append([]byte{byte('0' + i)}, []byte("-orbs-validator-node-eu-west-1-deployment")...)
+	case "case": // differ in letter case / one bit only
+		b := []byte("abcdefgh")
+		b[i%8] ^= 0x20
+		if i >= 8 {
+			b[(i+1)%8] ^= 0x20
+		}
+		return b
+	case "binary": // 0xff.., 0x80.., invalid utf-8, embedded zero
+		return [][]byte{{0xff}, {0xff, 0xff}, {0x80, 0x00, 0x80}, {0x00}, {0x00, 0x00}, {0xc3, 0x28}, {0xc3}, {0x28}}[i%8]
+	}
+	return []byte{byte('a' + i)}
+}
+
 func c06check(r *Rec, w []uint64) {
+	c06checkIds(r, w, "byte")
+	if len(w) >= 2 && len(w) <= 4 {
+		small := true
+		for _, x := range w {
+			if x > 7 {
+				small = false
+			}
+		}
+		if small { // the id spelling is independent of the magnitude of the weights: small weights only
+			for _, sch := range c06schemes[1:] {
+				c06checkIds(r, w, sch)
+			}
+		}
+	}
+}
+
+func c06checkIds(r *Rec, w []uint64, scheme string) {
 	n := len(w)
 	sum := new(big.Int)
 	for _, x := range w {
@@ -35,10 +78,31 @@ func c06check(r *Rec, w []uint64) {
 	members := make([]interfaces.CommitteeMember, n)
 	weights := make([]primitives.MemberWeight, n)
 	for i, x := range w {
-		members[i] = interfaces.CommitteeMember{Id: []byte{byte('a' + i)}, Weight: primitives.MemberWeight(x)}
+		members[i] = interfaces.CommitteeMember{Id: c06id(scheme, i), Weight: primitives.MemberWeight(x)}
 		weights[i] = primitives.MemberWeight(x)
 	}
-	cs := map[string]interface{}{"weights": fmt.Sprint(w)}
+	cs := map[string]interface{}{"weights": fmt.Sprint(w), "ids": scheme}
+	isMember := map[string]bool{}
+	for _, m := range members {
+		isMember[string(m.Id)] = true
+	}
+	// near-miss outsiders: ids that are NOT members but extend, truncate, pad or re-case a member's id
+	var near []primitives.MemberId
+	for _, m := range members {
+		id := []byte(m.Id)
+		cands := [][]byte{append(append([]byte{}, id...), 0), append(append([]byte{}, id...), id...), id[:len(id)-1], append([]byte{0}, id...)}
+		fl := append([]byte{}, id...)
+		fl[len(fl)-1] ^= 0x20
+		cands = append(cands, fl)
+		if len(id) > 20 {
+			cands = append(cands, append([]byte{}, id[:20]...), append(append([]byte{}, id[:20]...), 'X'))
+		}
+		for _, c := range cands {
+			if !isMember[string(c)] {
+				near = append(near, primitives.MemberId(c))
+			}
+		}
+	}
 
 	// reference
 	var f, q uint64
@@ -48,7 +112,7 @@ func c06check(r *Rec, w []uint64) {
 		f = (W - 1) / 3
 		q = W - f
 	}
-	class := fmt.Sprintf("n%d bits%d mod%d", n, bits.Len64(W), W%3)
+	class := fmt.Sprintf("n%d bits%d mod%d %s", n, bits.Len64(W), W%3, scheme)
 	r.Case(class)
 	gotF, gotQ := uint64(quorum.CalcByzMaxWeight(weights)), uint64(quorum.CalcQuorumWeight(weights))
 	if gotF != f {
@@ -93,16 +157,17 @@ func c06check(r *Rec, w []uint64) {
 		// duplicates, outsiders, empty ids add nothing
 		noisy := append(append([]primitives.MemberId{}, ids...), ids...)
 		noisy = append(noisy, primitives.MemberId("zz-outsider"), primitives.MemberId{})
+		noisy = append(noisy, near...)
 		nq, nw, _ := quorum.IsQuorum(noisy, members)
 		nh, _, _ := quorum.HasHonest(noisy, members)
 		r.Evals += 2
 		if nq != isQ[s] || nh != hasH[s] || uint64(nw) != wt[s] {
-			r.Bad("C06:noise-adds-weight", fmt.Sprintf("weights %v subset %b: duplicates/outsider/empty id changed the verdict (%v/%v w=%d vs %v/%v w=%d)", w, s, nq, nh, nw, isQ[s], hasH[s], wt[s]), cs)
+			r.Bad("C06:noise-adds-weight", fmt.Sprintf("weights %v subset %b: duplicates / outsiders (incl. ids that extend, truncate or re-case a member id) / empty id changed the verdict (%v/%v w=%d vs %v/%v w=%d)", w, s, nq, nh, nw, isQ[s], hasH[s], wt[s]), cs)
 		}
 	}
 	// history independence: what an earlier call returned must not change when another committee is evaluated
 	// (the committees of two heights are evaluated side by side by ValidateBlockConsensus and the worker)
-	if c06kept != nil && len(c06kept) == len(c06keptOf) {
+	if scheme == "byte" && c06kept != nil && len(c06kept) == len(c06keptOf) {
 		for i := range c06kept {
 			if uint64(c06kept[i]) != c06keptOf[i] {
 				r.Bad("C06:result-aliased", fmt.Sprintf("the weights returned for committee %v read %v after committee %v was evaluated", c06keptOf, c06kept, w), map[string]interface{}{"weights": fmt.Sprint(c06keptOf), "then": fmt.Sprint(w)})
@@ -110,7 +175,9 @@ func c06check(r *Rec, w []uint64) {
 			}
 		}
 	}
-	c06kept, c06keptOf = quorum.GetWeights(members), append([]uint64{}, w...)
+	if scheme == "byte" {
+		c06kept, c06keptOf = quorum.GetWeights(members), append([]uint64{}, w...)
+	}
 	full := N - 1
 	for a := 0; a < N; a++ {
 		// complement of any <= f subset is a quorum (attainability)
@@ -137,12 +204,16 @@ func c06check(r *Rec, w []uint64) {
 }
 
 func c06(r *Rec, replay map[string]interface{}) {
-	r.Rule = "weight vectors over the boundary grid {0,1,2,3,4,5,7,2^31,2^32+1,2^53-1..2^53+2,2^60+1,2^62+3, floor(2^64/n)-{0,1,2}} whose total fits in 64 bits: all ordered vectors for n<=3, all multisets (ascending and descending order) for larger n; per vector all subsets, all subset pairs, and a noisy id multiset per subset. distinct_nontrivial = distinct (n, bit length of W, W mod 3) classes"
+	r.Rule = "weight vectors over the boundary grid {0,1,2,3,4,5,7,2^31,2^32+1,2^53-1..2^53+2,2^60+1,2^62+3, floor(2^64/n)-{0,1,2}} whose total fits in 64 bits: all ordered vectors for n<=3, all multisets (ascending and descending order) for larger n; per vector all subsets, all subset pairs, and a noisy id multiset per subset (duplicates, an unrelated outsider, the empty id, and near-miss outsiders that extend / truncate / zero-pad / re-case a member id); vectors of 2..4 small weights are repeated under six spellings of the member ids (single byte, 40-byte common prefix, zero-byte extensions of one another, common 40-byte suffix, letter-case variants, binary / invalid UTF-8). distinct_nontrivial = distinct (n, bit length of W, W mod 3) classes"
 	if replay != nil {
 		var w []uint64
 		fmt.Sscan(trimBrackets(replay["case"].(map[string]interface{})["weights"].(string)), &w)
 		ws := parseUints(replay["case"].(map[string]interface{})["weights"].(string))
-		c06check(r, ws)
+		sch, _ := replay["case"].(map[string]interface{})["ids"].(string)
+		if sch == "" {
+			sch = "byte"
+		}
+		c06checkIds(r, ws, sch)
 		return
 	}
 	maxN := 4
